@@ -11,6 +11,12 @@ PROP = dict(
         dict(module="MCClientBody", cfg="MCClientBody_mut_nobase.cfg", expect_violation="BodyHolds", timeout=300),
         dict(module="MCClientBody", cfg="MCClientBody_mut_dupfile.cfg", expect_violation="BodyHolds", timeout=300),
         dict(module="MCClientBody", cfg="MCClientBody_mut_bodynotswitched.cfg", expect_violation="AuthHolds", timeout=300),
+        dict(module="MCClientBody", cfg="MCClientBody_mut_quotefastpath.cfg", expect_violation="BodyHolds", timeout=300),
+        dict(module="MCClientBody", cfg="MCClientBody_mut_latectset.cfg", expect_violation="BodyHolds", timeout=300),
+        # uploads overlapping in time: every interleaving of the writers' sniff / copy steps keeps each part's content;
+        # with a sniffing buffer shared between writers TLC finds the corrupting interleaving
+        dict(module="MCClientBodyOverlap", cfg="MCClientBodyOverlap.cfg", timeout=300),
+        dict(module="MCClientBodyOverlap", cfg="MCClientBodyOverlap_shared.cfg", expect_violation="FullContent", timeout=300),
     ],
     level_text="ClientBody transcribes the body selection of request.buildHTTP (buffer vs pipe, urlencoded form, the multipart goroutine with "
                "filepath.Base, declared-or-sniffed part types and the 512-byte sniffing window, the producer call, mangleContentType) and the "
@@ -26,7 +32,10 @@ PROP = dict(
     driver="c11",
     trace=dict(module="TraceClientBody", cfg="TraceClientBody.cfg"),
     rule="case = one payload (value per registered producer / io.Reader / io.ReadCloser / form fields / files / both) x media type x auth "
-         "writer calling GetBody 0..3 times x CreateHttpRequest or Submit; exhaustive part: one file of every length around the 512-byte "
+         "writer calling GetBody 0..3 times x CreateHttpRequest or Submit, or a batch of such requests overlapping in time (all built before "
+         "the first is sent, on one P and on all Ps, or 48 concurrent Submits); exhaustive part: stream/value payloads x GET/OPTIONS/POST/PUT/"
+         "PATCH/DELETE x a Content-Type pre-set by the params writer; file, field and form-key names with backslashes before specials, "
+         "doubled and trailing (no quote); one file of every length around the 512-byte "
          "window x 5 content heads x NUL positions x source read sizes (1, 7, 511, 512, 513, all) x declared or not x EOF-with-data; real "
          "*os.File uploads; 15 hostile file names x 7 field names x form fields under multipart and urlencoded; all payload kinds x k; "
          "seeded part: random mixtures up to 9 files of up to 200 kB. Non-trivial: a file part, several form values, a value/reader "
